@@ -110,18 +110,28 @@ def resolved_name(leaf):
 
 
 # ------------------------------------------------------------------------------------------------------------------ generator
+# string values as tracks really contain them: JSON escapes (new line, backslash, quote, non-ASCII written as \uXXXX by the renderer)
+AWKWARD_STRINGS = ["ctx._source.n += 1;\nctx._source.m = 'x'", "app-[0-9]+\\.log", "dir\\\\file", 'say "hi"', "caf\u00e9 \u65e5\u672c", "tab\there", "a\\1b\\g<0>"]
+
+
 def _op_params(typ):
     if typ == "bulk":
         return st.fixed_dictionaries({}, optional={"bulk-size": st.sampled_from([1, 50, 5000]), "pipeline": st.just("p1")})
     if typ == "search":
         return st.fixed_dictionaries(
-            {}, optional={"body": st.sampled_from([{"query": {"match_all": {}}}, {"query": {"term": {"f": "v"}}, "size": 3}]), "cache": st.booleans()}
+            {},
+            optional={
+                "body": st.sampled_from([{"query": {"match_all": {}}}, {"query": {"term": {"f": "v"}}, "size": 3}])
+                | st.sampled_from(AWKWARD_STRINGS).map(lambda v: {"query": {"regexp": {"f": v}}, "script_fields": {"s": {"script": {"source": v}}}}),
+                "cache": st.booleans(),
+            },
         )
     if typ == "force-merge":
         return st.fixed_dictionaries({}, optional={"mode": st.sampled_from(["blocking", "polling"]), "include-in-reporting": st.booleans()})
     if typ == "sleep":
         return st.fixed_dictionaries({"duration": st.sampled_from([0, 1, 3])})
-    return st.fixed_dictionaries({}, optional={"service-time": st.sampled_from([0.001, 0.25, 2]), "include-in-reporting": st.booleans(), "k": st.just([1, "a"])})
+    return st.fixed_dictionaries({}, optional={"service-time": st.sampled_from([0.001, 0.25, 2]), "include-in-reporting": st.booleans(), "k": st.just([1, "a"]),
+                                             "note": st.sampled_from(AWKWARD_STRINGS)})
 
 
 @st.composite
